@@ -26,7 +26,7 @@ impl<'a, K: FromStr> KeyValue<'a, K> {
     /// assert_eq!(kv.value, "9.3 // Some comment");
     /// ```
     pub fn parse(s: &'a str) -> Result<Self, K::Err> {
-        let mut split = s.split(':').map(str::trim);
+        let mut split = s.splitn(2, ':').map(str::trim);
 
         Ok(Self {
             key: split.next().unwrap_or(s.trim()).parse()?,
